@@ -432,6 +432,9 @@ pub fn check_all(c: &Compilation) -> Vec<(&'static str, String)> {
             out.push(("core", e));
         }
     }
+    // --- Core / Mono / Lift: structural scope-and-type check (irstage.rs)
+    let (stage_errs, _nodes) = crate::irstage::check_stages(c);
+    out.extend(stage_errs);
     // --- residue scans (Mono / Lift): no type parameter, inference variable or generic application
     for (stage, dump) in [("mono", format!("{:?}", c.mono)), ("lift", format!("{:?}", c.lambda))] {
         if let Some(pos) = dump.find("TParam") {
@@ -441,6 +444,6 @@ pub fn check_all(c: &Compilation) -> Vec<(&'static str, String)> {
             out.push((stage, format!("inference variable residue: …{}…", &dump[pos.saturating_sub(60)..(pos + 40).min(dump.len())].replace('\n', " "))));
         }
     }
-    out.truncate(6);
+    out.truncate(8);
     out
 }
